@@ -11,6 +11,8 @@ VERUS_UNITS = {
     'U-MP': dict(module='contracts.verus.msgpack_size', min_verified=37, timeout=600,
                  native_search=dict(src='src/msgpack.rs', file='msgpack_search.rs'),
                  props=['C18', 'C04', 'C02', 'C03']),
+    'U-CHK-V': dict(module='contracts.verus.yaml_chunker', min_verified=10, timeout=600,
+                    props=['C03', 'C05', 'C04', 'C02', 'C12']),
     'U-CAP-V': dict(module='contracts.verus.input_capture', min_verified=18, timeout=600,
                     props=['C09', 'C02', 'C04', 'C05', 'C12']),
 }
